@@ -48,7 +48,6 @@ structure AbsEq (s t : State) : Prop where
   cur : s.cur = t.cur
   active : s.active = t.active
   iteration : s.iteration = t.iteration
-  blind : s.blind = t.blind
 
 structure Sim (s t : State) : Prop where
   bes : s.be = .poll
@@ -63,13 +62,9 @@ structure Sim (s t : State) : Prop where
 theorem absEq_accepts {s t : State} (h : AbsEq s t) (c : Nat) (k : OpKind) : accepts s c k ↔ accepts t c k := by
   cases k <;> simp only [accepts, removeOk, recreateOk, h.ev c, h.added c, h.handling, h.cur, h.active]
 
-theorem absEq_blindUpdate {s t : State} (h : AbsEq s t) (c : Nat) (k : OpKind) :
-    blindUpdate s c k = blindUpdate t c k := by
-  simp only [blindUpdate, h.ev c, h.added c]
-
-theorem sim_applyOp {s t : State} (h : Sim s t) (c : Nat) (k : OpKind) (hb : (applyOp s c k).blind = false) :
+theorem sim_applyOp {s t : State} (h : Sim s t) (c : Nat) (k : OpKind) :
     Sim (applyOp s c k) (applyOp t c k) := by
-  obtain ⟨ps', ds', _⟩ := pollStruct_applyOp h.bes h.ps c k hb
+  obtain ⟨ps', ds', _⟩ := pollStruct_applyOp h.bes h.ps c k
   obtain ⟨es', dt', _⟩ := epStruct_applyOp h.bet h.es c k
   have ds'' := ds'.trans h.ds
   have dt'' := dt'.trans h.dt
@@ -78,9 +73,9 @@ theorem sim_applyOp {s t : State} (h : Sim s t) (c : Nat) (k : OpKind) (hb : (ap
     · rw [h.ds] at hd; exact absurd hd (by simp)
     · rw [h1, applyOp_reject h.dt (fun a => hacc ((absEq_accepts h.abs c k).2 a))]
       exact ⟨h.abs.ev, h.abs.rev, h.abs.added, h.abs.hooks, h.abs.handling, h.abs.cur, h.abs.active,
-        h.abs.iteration, h.abs.blind⟩
+        h.abs.iteration⟩
     · have h2 := applyOp_opStep h.dt ((absEq_accepts h.abs c k).1 hacc)
-      refine ⟨fun x => ?_, fun x => ?_, fun x => ?_, ?_, ?_, ?_, ?_, ?_, ?_⟩
+      refine ⟨fun x => ?_, fun x => ?_, fun x => ?_, ?_, ?_, ?_, ?_, ?_⟩
       · rw [h1.ev x, h2.ev x, h.abs.ev c, h.abs.ev x]
       · rw [h1.rev x, h2.rev x, h.abs.rev c, h.abs.rev x]
       · rw [h1.added x, h2.added x, h.abs.added x]
@@ -89,7 +84,6 @@ theorem sim_applyOp {s t : State} (h : Sim s t) (c : Nat) (k : OpKind) (hb : (ap
       · rw [h1.cur, h2.cur, h.abs.cur]
       · rw [h1.active, h2.active, h.abs.active]
       · rw [h1.iteration, h2.iteration, h.abs.iteration]
-      · rw [h1.blind, h2.blind, h.abs.blind, absEq_blindUpdate h.abs c k]
   · rcases applyOp_cases s c k with ⟨hd, _⟩ | ⟨_, hacc, h1⟩ | ⟨_, hacc, h1⟩
     · rw [h.ds] at hd; exact absurd hd (by simp)
     · rw [h1, applyOp_reject h.dt (fun a => hacc ((absEq_accepts h.abs c k).2 a))]
@@ -103,102 +97,65 @@ theorem sim_applyOp {s t : State} (h : Sim s t) (c : Nat) (k : OpKind) (hb : (ap
       simp only [absOut, List.filterMap_cons, Ev.strip, List.filterMap_nil]
       rw [h1.ev c, h2.ev c, h.abs.ev c]
 
-
-theorem blind_mono {F : State → State → Prop} (hF : ∀ a b, F a b → b.blind = a.blind) {s t : State}
-    (h : ReachF F s t) (hb : t.blind = false) : s.blind = false := by
-  induction h with
-  | refl => exact hb
-  | op s c k _ ih => exact applyOp_blind_mono s c k (ih hb)
-  | frame f _ ih => rw [← hF _ _ f]; exact ih hb
-  | cb f _ ih => rw [← (frame_of_cbStep f).2.2.2.2.1]; exact ih hb
-
-theorem blind_monoD {s t : State} (h : ReachD s t) (hb : t.blind = false) : s.blind = false :=
-  blind_mono (fun _ _ q => by obtain ⟨h, c, rfl⟩ := q; rfl) h hb
-
-theorem blind_monoR {s t : State} (h : Reach s t) (hb : t.blind = false) : s.blind = false :=
-  blind_mono (fun _ _ f => f.blind) h hb
-
-/-- changes of the loop's own bookkeeping, made on both sides -/
-theorem Sim.book {s t : State} (h : Sim s t) (hooks : List Hook) (it : Nat) (act : List Nat) (hh : Bool)
-    (cur : Option Nat) :
-    Sim { s with hooks := hooks, iteration := it, active := act, handling := hh, cur := cur }
-      { t with hooks := hooks, iteration := it, active := act, handling := hh, cur := cur } :=
-  ⟨h.bes, h.bet, h.ps.congr rfl rfl (fun _ => rfl) (fun _ => rfl) (fun _ => rfl),
-    h.es.congr rfl rfl rfl (fun _ => rfl) (fun _ => rfl) (fun _ => rfl), h.ds, h.dt,
-    ⟨h.abs.ev, h.abs.rev, h.abs.added, rfl, rfl, rfl, rfl, rfl, h.abs.blind⟩, h.out⟩
-
 theorem sim_foldl_ops (hs : List Hook) : ∀ (s t : State), Sim s t →
-    (hs.foldl (fun s h => applyOp s h.c h.op) s).blind = false →
     Sim (hs.foldl (fun s h => applyOp s h.c h.op) s) (hs.foldl (fun s h => applyOp s h.c h.op) t) := by
   induction hs with
-  | nil => intro s t h _; exact h
+  | nil => intro s t h; exact h
   | cons x rest ih =>
-    intro s t h hb
-    simp only [List.foldl_cons] at hb ⊢
-    have hb1 : (applyOp s x.c x.op).blind = false := blind_monoD (reach_foldl_ops rest _) hb
-    exact ih _ _ (sim_applyOp h x.c x.op hb1) hb
+    intro s t h
+    simp only [List.foldl_cons]
+    exact ih _ _ (sim_applyOp h x.c x.op)
 
 theorem Sim.setHooks {s t : State} (h : Sim s t) (hooks : List Hook) :
     Sim { s with hooks := hooks } { t with hooks := hooks } :=
   ⟨h.bes, h.bet, h.ps.congr rfl rfl (fun _ => rfl) (fun _ => rfl) (fun _ => rfl),
-    h.es.congr rfl rfl rfl (fun _ => rfl) (fun _ => rfl) (fun _ => rfl), h.ds, h.dt,
-    ⟨h.abs.ev, h.abs.rev, h.abs.added, rfl, h.abs.handling, h.abs.cur, h.abs.active, h.abs.iteration,
-      h.abs.blind⟩, h.out⟩
+    h.es.congr rfl rfl (fun _ => rfl) (fun _ => rfl) (fun _ => rfl), h.ds, h.dt,
+    ⟨h.abs.ev, h.abs.rev, h.abs.added, rfl, h.abs.handling, h.abs.cur, h.abs.active, h.abs.iteration⟩, h.out⟩
 
 theorem Sim.setCur {s t : State} (h : Sim s t) (cur : Option Nat) :
     Sim { s with cur := cur } { t with cur := cur } :=
   ⟨h.bes, h.bet, h.ps.congr rfl rfl (fun _ => rfl) (fun _ => rfl) (fun _ => rfl),
-    h.es.congr rfl rfl rfl (fun _ => rfl) (fun _ => rfl) (fun _ => rfl), h.ds, h.dt,
-    ⟨h.abs.ev, h.abs.rev, h.abs.added, h.abs.hooks, h.abs.handling, rfl, h.abs.active, h.abs.iteration,
-      h.abs.blind⟩, h.out⟩
+    h.es.congr rfl rfl (fun _ => rfl) (fun _ => rfl) (fun _ => rfl), h.ds, h.dt,
+    ⟨h.abs.ev, h.abs.rev, h.abs.added, h.abs.hooks, h.abs.handling, rfl, h.abs.active, h.abs.iteration⟩, h.out⟩
 
-theorem sim_runHooks {s t : State} (h : Sim s t) (j : Nat) (k : Kind) (hb : (runHooks s j k).blind = false) :
+theorem sim_runHooks {s t : State} (h : Sim s t) (j : Nat) (k : Kind) :
     Sim (runHooks s j k) (runHooks t j k) := by
-  unfold runHooks at hb ⊢
+  unfold runHooks
   rw [← h.abs.hooks]
-  exact sim_foldl_ops _ _ _ (h.setHooks _) hb
+  exact sim_foldl_ops _ _ _ (h.setHooks _)
 
 theorem sim_emit_cb {s t : State} (h : Sim s t) (c : Nat) (k : Kind) :
     Sim (emit s (.cb c k (s.chans c).revents (s.chans c).events))
       (emit t (.cb c k (t.chans c).revents (t.chans c).events)) := by
   refine ⟨h.bes, h.bet, h.ps.congr rfl rfl (fun _ => rfl) (fun _ => rfl) (fun _ => rfl),
-    h.es.congr rfl rfl rfl (fun _ => rfl) (fun _ => rfl) (fun _ => rfl), h.ds, h.dt,
-    ⟨h.abs.ev, h.abs.rev, h.abs.added, h.abs.hooks, h.abs.handling, h.abs.cur, h.abs.active, h.abs.iteration,
-      h.abs.blind⟩, ?_⟩
+    h.es.congr rfl rfl (fun _ => rfl) (fun _ => rfl) (fun _ => rfl), h.ds, h.dt,
+    ⟨h.abs.ev, h.abs.rev, h.abs.added, h.abs.hooks, h.abs.handling, h.abs.cur, h.abs.active, h.abs.iteration⟩,
+    ?_⟩
   simp only [emit, absOut_append, h.out, h.abs.rev c, h.abs.ev c]
 
-theorem sim_stage (k : Kind) {s t : State} (h : Sim s t) (c : Nat) (hb : (stage k s c).blind = false) :
+theorem sim_stage (k : Kind) {s t : State} (h : Sim s t) (c : Nat) :
     Sim (stage k s c) (stage k t c) := by
-  unfold stage at hb ⊢
-  simp only [h.ds, h.dt, Bool.false_eq_true, if_false] at hb ⊢
+  unfold stage
+  simp only [h.ds, h.dt, Bool.false_eq_true, if_false]
   rw [← h.abs.rev c, ← h.abs.ev c]
   split
-  · rename_i hg
-    rw [if_pos hg] at hb
-    exact sim_runHooks (sim_emit_cb h c k) c k hb
+  · exact sim_runHooks (sim_emit_cb h c k) c k
   · exact h
 
-theorem sim_handleEvent {s t : State} (h : Sim s t) (c : Nat) (hb : (handleEvent s c).blind = false) :
+theorem sim_handleEvent {s t : State} (h : Sim s t) (c : Nat) :
     Sim (handleEvent s c) (handleEvent t c) := by
-  unfold handleEvent at hb ⊢
-  have b3 := blind_monoD (reachD_stage .write _ c) hb
-  have b2 := blind_monoD (reachD_stage .read _ c) b3
-  have b1 := blind_monoD (reachD_stage .error _ c) b2
-  exact sim_stage .write (sim_stage .read (sim_stage .error (sim_stage .close h c b1) c b2) c b3) c hb
+  unfold handleEvent
+  exact sim_stage .write (sim_stage .read (sim_stage .error (sim_stage .close h c) c) c) c
 
-theorem sim_dispatch (act : List Nat) : ∀ (s t : State), Sim s t → (dispatch s act).blind = false →
+theorem sim_dispatch (act : List Nat) : ∀ (s t : State), Sim s t →
     Sim (dispatch s act) (dispatch t act) := by
   induction act with
-  | nil => intro s t h _; exact h
+  | nil => intro s t h; exact h
   | cons c rest ih =>
-    intro s t h hb
-    unfold dispatch at hb ⊢
-    simp only [List.foldl_cons] at hb ⊢
-    have hb1 : (handleEvent { s with cur := some c } c).blind = false :=
-      blind_monoD (reachD_dispatch rest _) hb
-    have h1 := h.setCur (some c)
-    exact ih _ _ (sim_handleEvent h1 c hb1) hb
-
+    intro s t h
+    unfold dispatch
+    simp only [List.foldl_cons]
+    exact ih _ _ (sim_handleEvent (h.setCur (some c)) c)
 
 /-! ### what the two `fillActiveChannels` store -/
 
@@ -413,7 +370,7 @@ instance decAlong2 {Q : State → State → In → Prop} [∀ s t i, Decidable (
   | _, _, [] => isTrue trivial
   | s, t, i :: rest => @instDecidableAnd _ _ _ (decAlong2 (step s i) (step t i) rest)
 
-theorem sim_poll {s t : State} (h : Sim s t) (hb : s.blind = false) (ready) (nret)
+theorem sim_poll {s t : State} (h : Sim s t) (ready) (nret)
     (henv : simEnvOk s t (.iter ready nret)) :
     Sim (pollerPoll s ready nret).1 (pollerPoll t ready nret).1 := by
   obtain ⟨he, hnd, hact⟩ := henv
@@ -421,14 +378,14 @@ theorem sim_poll {s t : State} (h : Sim s t) (hb : s.blind = false) (ready) (nre
   have ft := frame_pollerPoll t ready nret
   have bs := sameBook_pollerPoll s ready nret
   have bt := sameBook_pollerPoll t ready nret
-  have hds := ((pollGood_poll s ready nret ⟨h.bes, fun _ => ⟨h.ds, h.ps⟩⟩).2 (fs.blind.trans hb)).1
+  have hds := (pollGood_poll s ready nret ⟨h.bes, h.ds, h.ps⟩).2.1
   have hdt := (epAlive_poll t ready nret ⟨⟨h.bet, h.es⟩, h.dt⟩ he).2
   obtain ⟨ls, hls, hps, _⟩ := fs.out
   obtain ⟨lt, hlt, hpt, _⟩ := ft.out
   have hp := pollerPoll_poll_spec h.bes h.ps ready nret
   obtain ⟨e1, e2⟩ := pollerPoll_epoll_spec h.bet h.es ready nret he hnd
   refine ⟨fs.be.trans h.bes, ft.be.trans h.bet, h.ps.frame fs, h.es.frame ft, hds, hdt, ?_, ?_⟩
-  · refine ⟨fun c => ?_, fun c => ?_, fun c => ?_, ?_, ?_, ?_, ?_, ?_, ?_⟩
+  · refine ⟨fun c => ?_, fun c => ?_, fun c => ?_, ?_, ?_, ?_, ?_, ?_⟩
     · rw [fs.ev, ft.ev, h.abs.ev]
     · rw [hp c, e2 c, hact, e1, h.abs.rev]
     · rw [fs.added, ft.added, h.abs.added]
@@ -437,60 +394,53 @@ theorem sim_poll {s t : State} (h : Sim s t) (hb : s.blind = false) (ready) (nre
     · rw [bs.cur, bt.cur, h.abs.cur]
     · rw [bs.active, bt.active, h.abs.active]
     · rw [bs.iteration, bt.iteration, h.abs.iteration]
-    · rw [fs.blind, ft.blind, h.abs.blind]
   · rw [hls, hlt, absOut_append, absOut_append, absOut_plumb ls hps, absOut_plumb lt hpt, h.out]
 
 theorem Sim.beginIter {s t : State} (h : Sim s t) (act : List Nat) :
     Sim { s with iteration := s.iteration + 1, active := act, handling := true }
       { t with iteration := t.iteration + 1, active := act, handling := true } :=
   ⟨h.bes, h.bet, h.ps.congr rfl rfl (fun _ => rfl) (fun _ => rfl) (fun _ => rfl),
-    h.es.congr rfl rfl rfl (fun _ => rfl) (fun _ => rfl) (fun _ => rfl), h.ds, h.dt,
+    h.es.congr rfl rfl (fun _ => rfl) (fun _ => rfl) (fun _ => rfl), h.ds, h.dt,
     ⟨h.abs.ev, h.abs.rev, h.abs.added, h.abs.hooks, rfl, h.abs.cur, rfl,
-      congrArg (· + 1) h.abs.iteration, h.abs.blind⟩, h.out⟩
+      congrArg (· + 1) h.abs.iteration⟩, h.out⟩
 
 theorem Sim.endIter {s t : State} (h : Sim s t) :
     Sim { s with cur := none, handling := false } { t with cur := none, handling := false } :=
   ⟨h.bes, h.bet, h.ps.congr rfl rfl (fun _ => rfl) (fun _ => rfl) (fun _ => rfl),
-    h.es.congr rfl rfl rfl (fun _ => rfl) (fun _ => rfl) (fun _ => rfl), h.ds, h.dt,
-    ⟨h.abs.ev, h.abs.rev, h.abs.added, h.abs.hooks, rfl, rfl, h.abs.active, h.abs.iteration, h.abs.blind⟩,
+    h.es.congr rfl rfl (fun _ => rfl) (fun _ => rfl) (fun _ => rfl), h.ds, h.dt,
+    ⟨h.abs.ev, h.abs.rev, h.abs.added, h.abs.hooks, rfl, rfl, h.abs.active, h.abs.iteration⟩,
     h.out⟩
 
-theorem sim_iter {s t : State} (h : Sim s t) (ready) (nret) (henv : simEnvOk s t (.iter ready nret))
-    (hb : (iter s ready nret).blind = false) : Sim (iter s ready nret) (iter t ready nret) := by
-  have hb0 : s.blind = false := blind_monoR (reach_iter s ready nret) hb
-  have h1 := sim_poll h hb0 ready nret henv
+theorem sim_iter {s t : State} (h : Sim s t) (ready) (nret) (henv : simEnvOk s t (.iter ready nret)) :
+    Sim (iter s ready nret) (iter t ready nret) := by
+  have h1 := sim_poll h ready nret henv
   have hact := henv.2.2
-  rw [iter_eq, if_neg (by simp [h.ds]), if_neg (by simp [h1.ds])] at hb ⊢
+  rw [iter_eq, if_neg (by simp [h.ds]), if_neg (by simp [h1.ds])]
   rw [iter_eq, if_neg (by simp [h.dt]), if_neg (by simp [h1.dt]), ← hact]
-  exact (sim_dispatch _ _ _ (h1.beginIter _) hb).endIter
+  exact (sim_dispatch _ _ _ (h1.beginIter _)).endIter
 
-/-- both loops run the same history; the poll loop registers no channel without interest -/
+/-- both loops run the same history -/
 theorem sim_run (ins : List In) : ∀ (s t : State), Sim s t → Along2 simEnvOk s t ins →
-    (run s ins).blind = false → Sim (run s ins) (run t ins) := by
+    Sim (run s ins) (run t ins) := by
   induction ins with
-  | nil => intro s t h _ _; exact h
+  | nil => intro s t h _; exact h
   | cons i rest ih =>
-    intro s t h ha hb
+    intro s t h ha
     obtain ⟨hq, ha'⟩ := ha
-    have hb1 : (step s i).blind = false := blind_monoR (reach_run rest _) hb
-    refine ih (step s i) (step t i) ?_ ha' hb
+    refine ih (step s i) (step t i) ?_ ha'
     cases i with
-    | op c k => exact sim_applyOp h c k hb1
+    | op c k => exact sim_applyOp h c k
     | hook x =>
       simp only [step]
       rw [if_neg (by simp [h.ds]), if_neg (by simp [h.dt]), ← h.abs.hooks]
       exact h.setHooks (s.hooks ++ [x])
-    | iter ready nret => exact sim_iter h ready nret hq hb1
+    | iter ready nret => exact sim_iter h ready nret hq
 
 theorem sim_init : Sim (init .poll) (init .epoll) := by
-  refine ⟨rfl, rfl, (pollGood_init.2 rfl).2, epGood_init.2, (init_chans_poll 0).2.2, (init_chans_epoll 0).2.2,
-    ⟨fun c => ?_, fun c => ?_, fun c => ?_, rfl, rfl, rfl, rfl, rfl, rfl⟩, rfl⟩
-  · rw [(init_chans_poll c).1, (init_chans_epoll c).1]
-  · simp [init, applyOp, empty, updateChannel, setInterest, pollUpdate, epollUpdate, report, emit, pollIsNew,
-      epAddBranch, epIsNew, kNew, ctl, setIndex, setCmap, epCtlAdd, ctlADD, timerChan, wakeChan, fdOf]
-    by_cases h1 : c = 1
-    · simp [h1]
-    · by_cases h0 : c = 0 <;> simp [h1, h0]
-  · rw [(init_chans_poll c).2.1, (init_chans_epoll c).2.1]
+  refine ⟨rfl, rfl, pollGood_init.2.2, epGood_init.2, (init_chans .poll 0).2.2.1, (init_chans .epoll 0).2.2.1,
+    ⟨fun c => ?_, fun c => ?_, fun c => ?_, rfl, rfl, rfl, rfl, rfl⟩, rfl⟩
+  · rw [(init_chans .poll c).1, (init_chans .epoll c).1]
+  · rw [(init_chans .poll c).2.2.2, (init_chans .epoll c).2.2.2]
+  · rw [(init_chans .poll c).2.1, (init_chans .epoll c).2.1]
 
 end MuduoVerif.Poller
